@@ -2,15 +2,18 @@ package main
 
 import (
 	"bytes"
+	"context"
 	"encoding/csv"
 	"encoding/hex"
 	"encoding/json"
 	"fmt"
 	"io"
 	"os"
+	"os/exec"
 	"path/filepath"
 	"strconv"
 	"strings"
+	"time"
 
 	"verif/harness/internal/core"
 	"verif/harness/internal/model"
@@ -233,7 +236,7 @@ func refImport(cs c19Case) (events string, rows [][]proto.Val, causes []string) 
 		for i := range full {
 			full[i] = proto.Null()
 		}
-		bad := ""
+		bad, rangeBad := "", ""
 		for d, name := range cs.DstCols {
 			f := rec[cs.SrcCols[d]]
 			ci := colByName[name]
@@ -247,7 +250,11 @@ func refImport(cs c19Case) (events string, rows [][]proto.Val, causes []string) 
 				if err != nil {
 					bad = "unparsable-int"
 				} else if v > 2147483647 || v < -2147483648 {
-					bad = "int-out-of-range"
+					// refused only once every field has been converted: a field
+					// that cannot be parsed at all, further right, is reported first
+					if rangeBad == "" {
+						rangeBad = "int-out-of-range"
+					}
 				} else {
 					full[ci] = proto.Int(v)
 				}
@@ -274,6 +281,9 @@ func refImport(cs c19Case) (events string, rows [][]proto.Val, causes []string) 
 				break
 			}
 		}
+		if bad == "" {
+			bad = rangeBad
+		}
 		if bad == "" && model.EncodedSize(mcols, full) > model.MaxRowSize {
 			bad = "row-too-large"
 		}
@@ -290,7 +300,7 @@ func refImport(cs c19Case) (events string, rows [][]proto.Val, causes []string) 
 }
 
 func checkC19(c *core.Ctx) []core.Floor {
-	c.Rule = "destination tables of 1-5 columns over the four types (incl. BIGINT), column mappings (subsets, permutations, repeated source index), separators , ; tab | and the non-ASCII § · → ， (given through the tool's own -separator flag handling), streams of 0-200 records mixing valid fields, \\N markers, short records, bad quoting (bare quote, text after a closing quote, at most one never-closed quote), empty lines, unparsable and out-of-range numbers, unparsable booleans, oversized rows, quoted fields with separators / newlines / quotes inside. The real makeConfig (flag values -> configuration) + colDataTypes + doBatchInsert run against a real database (in-package go test -overlay driver); both channels are drained in arrival order and the table is read back. Reference: encoding/csv configured like the importer (CSV syntax is the standard library's responsibility) + an independent conversion: one event per record in record order, #ok + #err = #records, stored rows = accepted records in input order with the mapped columns converted (INT/BIGINT decimal with range check, BOOLEAN from 1/true/t/0/false/f, VARCHAR verbatim, \\N -> NULL), unmapped columns NULL. Distinct = (schema, mapping, CSV bytes); non-trivial = the stream contains at least one rejected and one accepted record."
+	c.Rule = "destination tables of 1-5 columns over the four types (incl. BIGINT), column mappings (subsets, permutations, repeated source index), separators , ; tab | and the non-ASCII § · → ， (given through the tool's own -separator flag handling), streams of 0-200 records mixing valid fields, \\N markers, short records, bad quoting (bare quote, text after a closing quote, at most one never-closed quote), empty lines, unparsable and out-of-range numbers, unparsable booleans, oversized rows, quoted fields with separators / newlines / quotes inside. The real makeConfig (flag values -> configuration) + colDataTypes + doBatchInsert run against a real database (in-package go test -overlay driver); both channels are drained in arrival order and the table is read back. Reference: encoding/csv configured like the importer (CSV syntax is the standard library's responsibility) + an independent conversion: one event per record in record order, #ok + #err = #records, stored rows = accepted records in input order with the mapped columns converted (INT/BIGINT decimal with range check, BOOLEAN from 1/true/t/0/false/f, VARCHAR verbatim, \\N -> NULL), unmapped columns NULL. In addition 32 (quick) / 640 (thorough) runs of the real csvimport BINARY end to end: database and table created through the engine in one process, the tool started with its command line flags and the CSV on standard input, the table read back by a third process; the stored rows and the number of '[line N]' error reports must be what the reference says, and the tool must exit normally. Distinct = (schema, mapping, CSV bytes); non-trivial = the stream contains at least one rejected and one accepted record."
 	c.Assume = []string{"what a record is, is decided by encoding/csv with the importer's settings", "canonical number spellings only (optional leading minus, no plus sign, blanks or underscores)"}
 	bin, err := buildOverlayTest(c, "cmd/csvimport", "csvimport_driver_test.go", "zz_verif_driver_test.go")
 	if err != nil {
@@ -334,7 +344,8 @@ func checkC19(c *core.Ctx) []core.Floor {
 			judgeC19(c, cases[i], outs[i])
 		}
 	})
-	fl := []core.Floor{{Key: "streams", Min: 500}, {Key: "streams_equal", Min: 100}, {Key: "records", Min: 5000}}
+	checkC19EndToEnd(c)
+	fl := []core.Floor{{Key: "streams", Min: 500}, {Key: "streams_equal", Min: 100}, {Key: "records", Min: 5000}, {Key: "e2e_runs", Min: 20}, {Key: "e2e_runs_equal", Min: 10}}
 	for _, t := range []string{"int", "bigint", "boolean"} {
 		fl = append(fl, core.Floor{Key: "gen_" + t + "_valid", Min: 20}, core.Floor{Key: "gen_" + t + "_invalid", Min: 20}, core.Floor{Key: "gen_" + t + "_null", Min: 20})
 	}
@@ -408,4 +419,149 @@ func judgeC19(c *core.Ctx, cs c19Case, o c19Result) {
 	}
 	c.Count("streams_equal", 1)
 	c.Sample(3, map[string]interface{}{"table": strings.Join(sch, ", "), "dest_cols": cs.DstCols, "src_cols": cs.SrcCols, "separator": cs.Sep, "csv_prefix": clip(string(cs.csv), 300), "events": events})
+}
+
+// ---------------------------------------------------------------------------
+// end to end: the csvimport binary itself (flag parsing, main's reporting
+// loop, process exit), between two engine processes that create the table and
+// read it back.
+
+func checkC19EndToEnd(c *core.Ctx) {
+	drv := mustDriver(c, false)
+	repo := os.Getenv("VERIF_REPO")
+	if repo == "" {
+		repo = "/repo"
+	}
+	tool := filepath.Join(c.Scratch, "csvimport-bin")
+	cmd := exec.Command("go", "build", "-o", tool, "./cmd/csvimport")
+	cmd.Dir = repo
+	cmd.Env = core.GoEnv()
+	if out, err := cmd.CombinedOutput(); err != nil {
+		fmt.Printf("BUILD-FAILED property=C19\n%v\n%s\n", err, out)
+		c.Cleanup()
+		os.Exit(3)
+	}
+	n := 32
+	if !core.Quick(c) {
+		n = 640
+	}
+	core.ParallelFor(n, c.Workers, func(i int) {
+		r := core.NewRand(core.SubSeed(c.Seed, "C19E2E", i))
+		cs := genC19(r, map[string]int{})
+		dir := c.CaseDir("c19e")
+		defer removeAll(dir)
+		var sch []string
+		var defs []proto.ColDef
+		for _, cl := range cs.Cols {
+			sch = append(sch, cl.Name+" "+cl.Type)
+			defs = append(defs, proto.ColDef{Name: cl.Name, Type: cl.Type, Len: cl.Len})
+		}
+		var src []string
+		for _, k := range cs.SrcCols {
+			src = append(src, fmt.Sprint(k))
+		}
+		args := []string{"-db", "d1", "-table", "t", "-dest-cols", strings.Join(cs.DstCols, ","), "-src-cols", strings.Join(src, ","), "-separator", cs.Sep}
+		replay := map[string]interface{}{"table": strings.Join(sch, ", "), "command_line": args, "csv": clip(string(cs.csv), 3000)}
+		var a script
+		a.cfg(true, 0)
+		a.k("init")
+		a.sql("CREATE DATABASE d1")
+		a.sql("USE d1")
+		a.stmt(&proto.Stmt{Kind: "create", Table: "t", Defs: defs})
+		a.k("close")
+		outA := core.RunScript(drv, dir, a.ops, 60*time.Second)
+		if outA.Died || len(outA.Res) != len(a.ops) {
+			c.Inconclusive("harness", "e2e setup process died")
+			return
+		}
+		for _, res := range outA.Res {
+			if res.Failed() {
+				c.Inconclusive("harness", "e2e setup failed: "+res.Err+res.Panic)
+				return
+			}
+		}
+		ctx, cancel := context.WithTimeout(context.Background(), 120*time.Second)
+		defer cancel()
+		run := exec.CommandContext(ctx, tool, args...)
+		run.Dir = dir
+		run.Stdin = bytes.NewReader(cs.csv)
+		var stdout, stderr bytes.Buffer
+		run.Stdout, run.Stderr = &stdout, &stderr
+		err := run.Run()
+		c.Count("e2e_runs", 1)
+		if ctx.Err() != nil {
+			c.Inconclusive("watchdog", "csvimport did not finish within 120 s")
+			return
+		}
+		replay["stdout_tail"] = clip(tail(stdout.String(), 1500), 1500)
+		if err != nil {
+			c.Violation("C19:e2e:tool-failed", fmt.Sprintf("csvimport ended with %v: %s", err, clip(core.FatalTail(stderr.String())+tail(stdout.String(), 300), 600)), replay)
+			return
+		}
+		var b script
+		b.cfg(true, 0)
+		b.k("init")
+		b.sql("USE d1")
+		q := b.query("SELECT * FROM t")
+		b.k("close")
+		outB := core.RunScript(drv, dir, b.ops, 60*time.Second)
+		if outB.Died || len(outB.Res) != len(b.ops) {
+			c.Violation("C19:e2e:database-unreadable-after-import", "the process reading the table back died: "+clip(core.FatalTail(outB.Stderr), 400), replay)
+			return
+		}
+		rq := outB.Res[q]
+		if rq.Failed() {
+			c.Violation("C19:e2e:database-unreadable-after-import", "SELECT * FROM t after the import: "+rq.Err+rq.Panic, replay)
+			return
+		}
+		events, rows, causes := refImport(cs)
+		wantReports := 0
+		for _, cause := range causes {
+			switch cause {
+			case "csv-syntax", "short-record", "unparsable-int", "unparsable-bigint", "unparsable-boolean":
+				wantReports++
+			}
+		}
+		replay["expected_events"] = events
+		if len(rq.Rows) != len(rows) {
+			c.Violation("C19:e2e:stored-row-count", fmt.Sprintf("%d records are valid, %d rows are in the table after the tool ran", len(rows), len(rq.Rows)), replay)
+			return
+		}
+		for k, want := range rows {
+			got := rq.Rows[k].Vals
+			for j := range want {
+				if j >= len(got) || got[j].Enc() != want[j].Enc() {
+					c.Violation("C19:e2e:stored-value-differs:"+cs.Cols[j].Type, fmt.Sprintf("accepted record %d, column %s: stored differs from the field", k+1, cs.Cols[j].Name), replay)
+					return
+				}
+			}
+			if k > 0 && rq.Rows[k].ID <= rq.Rows[k-1].ID {
+				c.Violation("C19:e2e:row-order", "stored rows are not in input order", replay)
+				return
+			}
+		}
+		gotReports := 0
+		var reports []string
+		for _, ln := range strings.Split(stdout.String(), "\n") {
+			if ln = strings.TrimLeft(ln, "\r"); strings.HasPrefix(ln, "[line ") {
+				gotReports++
+				reports = append(reports, clip(ln, 90))
+			}
+		}
+		replay["reports_printed"] = reports
+		replay["record_fates_expected"] = causes
+		if gotReports != wantReports {
+			c.Violation("C19:e2e:error-reports", fmt.Sprintf("%d malformed records in the input, %d '[line N]' reports printed", wantReports, gotReports), replay)
+			return
+		}
+		c.Count("e2e_runs_equal", 1)
+		c.Count("e2e_records", int64(len(events)))
+	})
+}
+
+func tail(s string, n int) string {
+	if len(s) <= n {
+		return s
+	}
+	return s[len(s)-n:]
 }
